@@ -34,6 +34,19 @@ type vfile struct {
 	closed bool
 	closes int
 	rdonly bool
+	pos    int // file position of this handle (writes overwrite from here, as without O_APPEND)
+}
+
+// put writes cells at the handle's position, overwriting or extending the file.
+func (f *vfile) put(cells []Value) {
+	for _, c := range cells {
+		if f.pos < len(f.node.data) {
+			f.node.data[f.pos] = copyVal(c)
+		} else {
+			f.node.data = append(f.node.data, copyVal(c))
+		}
+		f.pos++
+	}
 }
 
 type vmapping struct {
@@ -87,16 +100,12 @@ func (f *vfile) Write(p Slice) (int, error) {
 				n = len(p.A) - 1
 			}
 		}
-		for _, c := range p.A[:n] {
-			f.node.data = append(f.node.data, copyVal(c))
-		}
+		f.put(p.A[:n])
 		f.in.X.noteInput("fault.armed", 1)
-		f.in.X.noteInput("fault.offset", uint64(len(f.node.data)))
+		f.in.X.noteInput("fault.offset", uint64(f.pos))
 		return n, errInjected
 	}
-	for _, c := range p.A {
-		f.node.data = append(f.node.data, copyVal(c))
-	}
+	f.put(p.A)
 	return len(p.A), nil
 }
 
